@@ -307,8 +307,39 @@ func splitAnn(v string) (string, string) {
 	return v, ""
 }
 
+// shortcutObject: an object whose members are mostly key shortcuts, with an
+// additionalProperties rule, the values drawn from a tiny set so that they repeat
+// each other and the rule (what the OpenAPI converter turns into one anyOf list).
+func (g *gctx) shortcutObject(ind string) string {
+	r := g.r
+	vals := []string{r.pick(g.names), r.pick(g.names), `"s"`, `1`, `true`}
+	ap := r.pick([]string{`"string"`, `"integer"`, `"` + vals[0] + `"`, `"` + vals[1] + `"`, `false`, `"boolean"`})
+	var sb strings.Builder
+	sb.WriteString("{ // {additionalProperties: " + ap + "}\n")
+	n := 2 + r.n(3)
+	in2 := ind + "  "
+	used := map[string]bool{}
+	for i := 0; i < n; i++ {
+		key := r.pick(g.names)
+		if used[key] || r.pct(20) {
+			key = `"p` + strconv.Itoa(i) + `"`
+		}
+		used[key] = true
+		sb.WriteString(in2 + key + ": " + vals[r.n(len(vals))])
+		if i != n-1 {
+			sb.WriteString(",")
+		}
+		sb.WriteString("\n")
+	}
+	sb.WriteString(ind + "}")
+	return sb.String()
+}
+
 func (g *gctx) object(ind string) string {
 	r := g.r
+	if len(g.names) >= 2 && r.pct(6) {
+		return g.shortcutObject(ind)
+	}
 	var sb strings.Builder
 	head := ""
 	apType, lastShortcutVal := "", ""
